@@ -333,6 +333,33 @@ def translate():
     return "\n".join(lines) + "\n", meta
 
 
+# methods whose generic implementation in LinearOperator the model transcribes; a class that defines its own is an
+# "override" the model must know about
+OVERRIDABLE = ["to", "type", "clone", "detach", "detach_", "cpu", "cuda", "double", "float", "half", "representation",
+               "representation_tree", "evaluate_kernel", "dtype", "device", "requires_grad", "_set_requires_grad",
+               "requires_grad_", "_args", "_kwargs"]
+
+
+def translate_overrides():
+    """-> coq source of gen/Overrides.v: every (class, method) where the class (or a base class other than
+    LinearOperator) defines one of the copy / conversion / representation methods itself"""
+    from linear_operator.operators import LinearOperator
+    found = load_classes()
+    pairs = []
+    for py, cq in CLASSES:
+        k = found[py]
+        for m in OVERRIDABLE:
+            owner = next((c for c in k.__mro__ if m in c.__dict__), None)
+            if owner is not None and owner is not LinearOperator and owner is not object:
+                pairs.append((cq, m))
+    lines = ["(* GENERATED by harness/c14_ctors.py: overrides of the copy / conversion methods - do not edit *)",
+             "From Coq Require Import List String.", "Import ListNotations.", "Require Import C14.Types.",
+             "Open Scope string_scope.", "Definition overrides : list (cls * string) := ["]
+    lines.append(";\n".join('  (%s, "%s")' % (c, m) for c, m in pairs))
+    lines.append("].")
+    return "\n".join(lines) + "\n", pairs
+
+
 if __name__ == "__main__":
     code, meta = translate()
     print(code)
